@@ -329,6 +329,8 @@ class SimWorld:
         if setup is not None:
             setup(self)
         async with Scope() as outer:
+            if scenario.get("enter_late") is not None:
+                await (usim.time + scenario["enter_late"])      # the native clock moves on first
             async with self.env as entered:
                 if entered is not self.env:
                     self.monitor_violations.append((
